@@ -205,8 +205,9 @@ def run(ck, m):
     scr = m.get(I, "set_cell_ratio")
     gcr = m.get(I, "get_cell_ratio")
     wr = []
-    for rel, f in m.files.items():
-        for t, st in stores_in(f.tree, local=False):
+    for rel, _q, t, st in m.stores():
+
+        if True:
             if (dotted(t) or "").split(".")[-1] == "_cell_ratio":
                 wr.append((rel, getattr(st, "_q", "") or "<module>", st))
     for rel, q, st in wr:
